@@ -145,11 +145,14 @@ func c18EvalPool(c *Ctx, pool []c18Val) ([]c18Val, *vm.Thread, *vm.ThreadPool) {
 	var thread *vm.Thread
 	var tp *vm.ThreadPool
 	var sb strings.Builder
-	sb.WriteString("[\n")
+	// built element by element: one list literal with this many non-static elements needs more than the
+	// 30% frame headroom of the default value stack (listed finding K-C10-headroom of C10), which is not
+	// this property's subject
+	sb.WriteString("var pool: ArrayList[any] = []\n")
 	for _, p := range pool {
-		fmt.Fprintf(&sb, "  %s,\n", p.src)
+		fmt.Fprintf(&sb, "pool << (%s)\n", p.src)
 	}
-	sb.WriteString("]\n")
+	sb.WriteString("pool\n")
 	res := RunElk(sb.String(), &ElkOpts{KeepThread: true})
 	if res.Panic != "" {
 		c.Violate("pool:panic:"+panicSite(res.PanicStack), "building the value pool panicked: "+res.Panic+"\n"+head(res.PanicStack, 1200), -1, nil)
@@ -162,7 +165,7 @@ func c18EvalPool(c *Ctx, pool []c18Val) ([]c18Val, *vm.Thread, *vm.ThreadPool) {
 		return nil, nil, nil
 	}
 	thread, tp = res.Thread, res.Pool
-	lst, isList := res.Result.SafeAsReference().(value.ArrayTuple)
+	lst, isList := res.Result.SafeAsReference().(value.ArrayList)
 	if !isList || lst.Length() != len(pool) {
 		c.Inconclusive("pool program did not return a list of the expected length")
 		return nil, nil, nil
